@@ -2,7 +2,7 @@
    entries are compacted in place; `dest` is the write position, `cur` the read position.  No proofs here.
    fixed = false is the unrepaired code: a special unigram (<unk>, <s>, </s>) advances dest WITHOUT being copied,
    which is only harmless while no pruned entry precedes it (ids 0,1,2 come first unless the vocabulary was
-   renumbered: --renumber / --intermediate).  Defect F13. *)
+   renumbered: --renumber / --intermediate).  Defect F13L. *)
 From Coq Require Import List NArith PeanoNat Bool.
 From Kenlm Require Import C05.KNDefs.
 Import ListNotations.
